@@ -20,6 +20,8 @@ fn strings() -> Vec<String> {
         "d//e.jbkc".into(),
         "d/./e.jbkc".into(),
         "d/e.jbkc/".into(),
+        // a control character at the end (valid UTF-8, 8 bytes)
+        "c1.jbkc\0".into(),
         "x".repeat(213),
         "é".repeat(106),                 // 212 bytes
         format!("{}a", "é".repeat(106)), // 213 bytes
@@ -281,7 +283,7 @@ fn initials(dir: &Path, thorough: bool) -> Result<Vec<Initial>, String> {
         packs.retain(|p| *p < n);
         packs.sort();
         packs.dedup();
-        out.push(Initial { name: format!("{count}-packs-manifest"), bytes, file_name: "many.jbkm".into(), slots, locations, logical: None, base, events: Some((packs, vec![0, 1, 6])) });
+        out.push(Initial { name: format!("{count}-packs-manifest"), bytes, file_name: "many.jbkm".into(), slots, locations, logical: None, base, events: Some((packs, vec![0, 1, 7])) });
     }
     Ok(out)
 }
@@ -362,7 +364,7 @@ fn main() {
     let mut rep = Report::new(
         "locmc",
         "C12",
-        "BFS over rewrite histories: state = vector of recorded locations; events = (every pack listed incl. the directory pack, or an unknown uuid) x 10 strings ('', 'a', 'd/e.jbkc' and three other spellings of that path ('d//e.jbkc', 'd/./e.jbkc', 'd/e.jbkc/'), 213 x 'x', 212-byte and 213-byte multi-byte UTF-8); depth 2 (quick) / 3 (thorough) from each initial state (standalone manifest, manifest inside a OneFile container, inside concat outputs with the manifest last / in the middle, the same with non-zero group bytes patched in, and manifests whose pack-info table lies 90 KB / 210 KB into the pack because of per-pack free data, standalone and concatenated); plus manifests listing 300 packs (thorough 255/256/300/600; rewrites of 10 packs spread over the table x 3 strings); plus, per initial state, every byte of every pack description (outside the location) altered before a rewrite of that pack: the rewrite is refused or the description still reads as created or fails; in every state: block CRCs, file structure, locations (independent and library), manifest check(), the library's whole view of the manifest except locations unchanged, container contents; every transition calls the real tools::set_location on a real file; non-trivial = a transition that changes the state",
+        "BFS over rewrite histories: state = vector of recorded locations; events = (every pack listed incl. the directory pack, or an unknown uuid) x 11 strings ('', 'a', one ending with U+0000, 'd/e.jbkc' and three other spellings of that path ('d//e.jbkc', 'd/./e.jbkc', 'd/e.jbkc/'), 213 x 'x', 212-byte and 213-byte multi-byte UTF-8); depth 2 (quick) / 3 (thorough) from each initial state (standalone manifest, manifest inside a OneFile container, inside concat outputs with the manifest last / in the middle, the same with non-zero group bytes patched in, and manifests whose pack-info table lies 90 KB / 210 KB into the pack because of per-pack free data, standalone and concatenated); plus manifests listing 300 packs (thorough 255/256/300/600; rewrites of 10 packs spread over the table x 3 strings); plus, per initial state, every byte of every pack description (outside the location) altered before a rewrite of that pack: the rewrite is refused or the description still reads as created or fails; in every state: block CRCs, file structure, locations (independent and library), manifest check(), the library's whole view of the manifest except locations unchanged, container contents; every transition calls the real tools::set_location on a real file; non-trivial = a transition that changes the state",
     );
     // one child process per group of initial states (--shards N)
     if jbkmc::shard::run_children(&args, &mut rep) {
